@@ -231,7 +231,6 @@ def compute_shapley_add(
                 for avalue, rvalue in result.items():
                     if (
                         avalue.is_inf
-                        or avalue.tupletally == 0
                         or rvalue <= 0
                         or (np.sum(avalue.labeltally_with) != num_neighbors and t1 is not None)  # type: ignore
                         or (np.sum(avalue.labeltally_without) != num_neighbors and t2 is not None)  # type: ignore
